@@ -719,7 +719,16 @@ fn gs_spec(file: usize, idx: usize) -> ModelSpec {
 
 pub fn decode_tp(g: &mut Gen) -> TpCase {
     let spec = gen_model(g, &GenCfg::all(3));
-    let x = g.simplex(spec.n(), 1e-3);
+    let mut x = g.simplex(spec.n(), 1e-3);
+    // "all moles vectors": a component that is present in the model with exactly zero moles
+    // (not for the electroneutral water + salt sets, whose composition is fixed by construction)
+    let zero_ok = spec.n() >= 2 && !(spec.family == Family::EPcSaft && spec.source.starts_with("shipped"));
+    if zero_ok && g.bool(0.15) {
+        let k = g.index(spec.n());
+        x[k] = 0.0;
+        let s: f64 = x.iter().sum();
+        x.iter_mut().for_each(|v| *v /= s);
+    }
     // a third of the cases close to the critical temperature / saturation region
     let t_red = match g.index(3) {
         0 => g.range(0.45, 2.0),
@@ -827,6 +836,9 @@ pub fn check_tp(case: &TpCase, obs: &mut Obs) {
     obs.class(spec.label());
     obs.class(format!("n={}", spec.n()));
     obs.class(case.init.label());
+    if case.x.iter().any(|&v| v == 0.0) {
+        obs.class("zero-mole component");
+    }
     if spec.has_association() {
         obs.class("assoc");
     }
